@@ -407,6 +407,12 @@ def run_case(case):
     res = dict(events=ev, stats=stats, max_running=book.max_running, monitors=[], out=None, end=None,
                switches=stats.get('jumps', 0))
     mon = res['monitors']
+    if case['kind'] == 'apmap' and book.max_running > case['conc']:
+        # known finding F35: async worker functions are limited only by the hand-off capacity (2*concurrency+3
+        # elements in flight); anything beyond that envelope is a different violation
+        mon.append(dict(prop='C08', rule='concurrency-async-worker-within-capacity' if book.max_running <= 2 * case['conc'] + 3 else 'concurrency',
+                        detail=f'AsyncStream.parmap(async worker): {book.max_running} invocations of the worker function under way '
+                               f'at the same time, concurrency={case["conc"]}'))
     exp_out, exp_end = expected(case)
     res['expected'] = [list(exp_out), list(exp_end)]
     sync_out, sync_end, sync_ident, sbook = _run_sync(case)
